@@ -112,6 +112,64 @@ Proof.
 Qed.
 
 (* ------------------------------------------------------------------------------------------------ *)
+(* 1b. type_walk                                                                                     *)
+(* ------------------------------------------------------------------------------------------------ *)
+
+(* leaving a parenthesis opened before ts: ts splits at the matching close parenthesis *)
+Lemma type_walk_split : forall n ts d,
+  length ts <= n -> type_walk ts (S d) = true ->
+  exists g c r, ts = g ++ c :: r /\ is_rparen c = true /\ inner g /\ type_walk r d = true.
+Proof.
+  induction n as [| n IHn]; intros ts d Hlen Hw.
+  - destruct ts as [| t r]; simpl in Hlen; [| lia]. simpl in Hw. discriminate.
+  - destruct ts as [| t r]; [simpl in Hw; discriminate |].
+    simpl in Hlen. cbn [type_walk] in Hw.
+    destruct (is_lbrace t || is_rbrace t) eqn:Hb; [discriminate |].
+    destruct (is_lparen t) eqn:Hl.
+    + destruct (IHn r (S d)) as (g1 & c1 & r1 & Er & Hc1 & Hg1 & Hw1); [lia | exact Hw |].
+      assert (Hlen1 : length r1 <= n).
+      { subst r. rewrite app_length in Hlen. simpl in Hlen. lia. }
+      destruct (IHn r1 d) as (g2 & c2 & r2 & Er1 & Hc2 & Hg2 & Hw2); [lia | exact Hw1 |].
+      exists (t :: g1 ++ c1 :: g2), c2, r2. repeat split.
+      * subst r r1. simpl. rewrite <- app_assoc. reflexivity.
+      * exact Hc2.
+      * apply inner_group; assumption.
+      * exact Hw2.
+    + destruct (is_rparen t) eqn:Hr.
+      * exists [], t, r. repeat split; [exact Hr | constructor | exact Hw].
+      * destruct (IHn r d) as (g1 & c1 & r1 & Er & Hc1 & Hg1 & Hw1); [lia | exact Hw |].
+        exists (t :: g1), c1, r1. repeat split.
+        -- subst r. reflexivity.
+        -- exact Hc1.
+        -- apply inner_plain; [apply plain_of_flags; assumption | exact Hg1].
+        -- exact Hw1.
+Qed.
+
+Lemma type_walk_type_seq : forall n ts, length ts <= n -> type_walk ts 0 = true -> type_seq ts.
+Proof.
+  induction n as [| n IHn]; intros ts Hlen Hw.
+  - destruct ts; [constructor | simpl in Hlen; lia].
+  - destruct ts as [| t r]; [constructor |].
+    simpl in Hlen. cbn [type_walk] in Hw.
+    destruct (is_lbrace t || is_rbrace t) eqn:Hb; [discriminate |].
+    destruct (is_lparen t) eqn:Hl.
+    + destruct (type_walk_split (length r) r 0) as (g & c & r2 & Er & Hc & Hg & Hw2); [lia | exact Hw |].
+      subst r. apply tsq_group; try assumption.
+      apply IHn; [| exact Hw2]. rewrite app_length in Hlen. simpl in Hlen. lia.
+    + destruct (is_rparen t) eqn:Hr; [discriminate |].
+      apply andb_true_iff in Hw. destruct Hw as [Hw Hwr].
+      apply andb_true_iff in Hw. destruct Hw as [Htt Hnext].
+      apply tsq_tok; [exact Htt | exact Hnext |].
+      apply IHn; [lia | exact Hwr].
+Qed.
+
+Lemma type_seq_b_sound : forall ts, type_seq_b ts = true -> type_seq ts.
+Proof.
+  intros ts H. unfold type_seq_b in H.
+  apply (type_walk_type_seq (length ts)); [lia | exact H].
+Qed.
+
+(* ------------------------------------------------------------------------------------------------ *)
 (* 2. stmt_len                                                                                       *)
 (* ------------------------------------------------------------------------------------------------ *)
 
@@ -317,7 +375,8 @@ Proof.
           cbn [tl] in H.
           destruct (take_until_brace after') as [ty rest2] eqn:Htb.
           apply take_until_brace_spec in Htb.
-          destruct (forallb type_tok ty) eqn:Hty; [| discriminate].
+          destruct (type_seq_b ty) eqn:Hty; [| discriminate].
+          apply type_seq_b_sound in Hty.
           inversion H; subst hk out. cbn [head_ok].
           apply andb_true_iff in Hcol. destruct Hcol as [Hts Hca].
           assert (El : l = LTypeScript) by (destruct l; try discriminate; reflexivity).
